@@ -63,7 +63,19 @@ func init() {
 // c19Pipeline drives one case through the fixed data path and compares with the model after every stage.
 // It returns the per-stage dumps (for the cross-variant comparison) and the first violation.
 func c19Pipeline(cfg Config, first *BatchSpec, probes []string, label string) (dumps []string, viol *Violation, infra string, stages int) {
-	alpha := []*BatchSpec{first, {Ops: []Op{{Kind: 'S', Key: "zz", Val: "second"}}}, {Ops: []Op{{Kind: 'S', Key: "zy", Val: "third"}}}}
+	second := &BatchSpec{Ops: []Op{{Kind: 'S', Key: "zz", Val: "second"}}}
+	if len(first.Ops) > 0 {
+		// the second batch also touches the case key again: overwrite (or, for the merge forms, a "keep" merge operand)
+		k := first.Ops[len(first.Ops)/2].Key
+		if k != "zz" {
+			if cfg.MergeOp {
+				second.Ops = append(second.Ops, Op{Kind: 'M', Key: k, Val: keepOperand})
+			} else {
+				second.Ops = append(second.Ops, Op{Kind: 'S', Key: k, Val: "overwritten"})
+			}
+		}
+	}
+	alpha := []*BatchSpec{first, second, {Ops: []Op{{Kind: 'S', Key: "zy", Val: "third"}}}}
 	w := NewWorld(cfg, alpha)
 	defer w.Teardown()
 	w.probes = probes
@@ -77,7 +89,10 @@ func c19Pipeline(cfg Config, first *BatchSpec, probes []string, label string) (d
 		{"after merger", []string{"M"}, nil},
 		{"after persist", []string{"Pb", "Pe"}, nil},
 		{"after reopen", []string{"R"}, nil},
-		{"second batch appended", []string{"B1", "M", "Pb", "Pe"}, nil},
+		{"second batch in memory", []string{"B1"}, nil},
+		{"second batch merged", []string{"M"}, nil},
+		{"second batch being persisted", []string{"Pb"}, nil},
+		{"second batch appended", []string{"Pe"}, nil},
 		{"reopen with forced compaction", []string{"R"}, func() { w.cfg.Concern = 2 }},
 		{"third batch -> full compaction", []string{"B2", "M", "Pb", "Pe"}, nil},
 		{"reopen after compaction", []string{"R"}, func() { w.cfg.Concern = 0 }},
@@ -133,11 +148,14 @@ func c19Run(j c19Job) (res c19Res) {
 		{Backing: "store", MinMergePct: 100},
 		{Backing: "store", MinMergePct: 100, DeferredSort: true, CachePersisted: true},
 	}
+	// merge form: the second batch applies a "keep" merge operand to the case key (value must survive unchanged, also when empty)
+	cfgs = append(cfgs, Config{Backing: "store", MinMergePct: 0.01, MergeOp: true, CachePersisted: true})
 	if j.Tier == "thorough" {
-		cfgs = append(cfgs, Config{Backing: "store", MinMergePct: 100, DeferredSort: true}, Config{Backing: "store", MinMergePct: 100, CachePersisted: true})
+		cfgs = append(cfgs, Config{Backing: "store", MinMergePct: 100, DeferredSort: true}, Config{Backing: "store", MinMergePct: 100, CachePersisted: true},
+			Config{Backing: "store", MinMergePct: 100, MergeOp: true, DeferredSort: true})
 	}
 	for _, form := range []string{"single", "middle-of-three"} {
-		var ref []string
+		ref := map[bool][]string{}
 		for _, build := range []string{"plain", "alloc", "mixed"} {
 			for ci, cfg := range cfgs {
 				b := &BatchSpec{}
@@ -166,9 +184,9 @@ func c19Run(j c19Job) (res c19Res) {
 					res.Viols = append(res.Viols, *viol)
 					continue
 				}
-				if ref == nil {
-					ref = dumps
-				} else if strings.Join(ref, "\n") != strings.Join(dumps, "\n") {
+				if ref[cfg.MergeOp] == nil {
+					ref[cfg.MergeOp] = dumps
+				} else if strings.Join(ref[cfg.MergeOp], "\n") != strings.Join(dumps, "\n") {
 					res.Viols = append(res.Viols, Violation{Prop: "C19", Sig: "variant-differs|" + build + "|any",
 						Msg: label + ": the per-stage dumps differ from those of the plain build / first option combination"})
 				}
@@ -176,7 +194,7 @@ func c19Run(j c19Job) (res c19Res) {
 			}
 		}
 	}
-	res.Sample = fmt.Sprintf("key %s, value %s: single and middle-of-three, plain/alloc/mixed builds, %d option combinations, 8 pipeline stages each", short(k), short(v), len(cfgs))
+	res.Sample = fmt.Sprintf("key %s, value %s: single and middle-of-three, plain/alloc/mixed builds, %d option combinations, 11 pipeline stages each", short(k), short(v), len(cfgs))
 	return
 }
 
